@@ -460,6 +460,20 @@ func (r *Remote) Pause(p bool) {
 	}
 }
 
+// Len returns the number of messages received and not yet taken.
+func (r *Remote) Len() int {
+	r.mu.Lock()
+	defer r.mu.Unlock()
+	return len(r.inbox)
+}
+
+// All returns every message received so far.
+func (r *Remote) All() []ref.Msg {
+	r.mu.Lock()
+	defer r.mu.Unlock()
+	return append([]ref.Msg(nil), r.all...)
+}
+
 // Take returns the messages received since the last call, in stream order.
 func (r *Remote) Take() []ref.Msg {
 	r.mu.Lock()
